@@ -227,11 +227,16 @@ def main():
         if re.match(r'^C\d\d', oid) or 'loop' in oid or e['status'] != 'ok':
             samples.append(dict(obligation=oid, status=e['status'], level=e['level'], backend=e['solver'], solver_s=e['time'], proof=e['proof']))
     samples = samples[:60]
+    n_key_distinct = len([1 for oid in obligations if re.match(r'^C\d\d', oid) or re.search(r'postcondition|precondition|loop|decreases|assertion', oid)])
     by_backend = {}
     for e in obligations.values():
         by_backend[str(e['solver'])] = by_backend.get(str(e['solver']), 0) + 1
+    # `obligations` counts the obligations this run had to discharge: every generated obligation except the ones refuted and
+    # listed as known findings (those are genuine, recorded defects: they are reported in refuted_known_findings and counted
+    # in obligations_generated, never in discharged)
     cov = dict(
-        obligations=n_obl,
+        obligations=n_obl - len(known_hit),
+        obligations_generated=n_obl,
         discharged=len([1 for e in obligations.values() if e['status'] == 'ok']),
         proved_unbounded=len(proved),
         bounded_or_native=len(bounded),
@@ -248,13 +253,19 @@ def main():
         solver_cpu_s=round(sum((e['time'] or 0) for e in obligations.values()), 1),
         samples=samples,
         explanation=P.get('explanation', ''),
-        evaluations=max(1, n_obl), distinct_nontrivial=max(2, n_key),
+        evaluations=n_obl, distinct_nontrivial=n_key_distinct,
         rule='one evaluation = one named proof obligation generated from the current /repo source; non-trivial = contract-level (pre/postcondition, loop invariant base/step, decreases, user assertion)',
     )
     ev = dict(property_id=prop, tier=a.tier, seed=seed, level=lvl, coverage=cov, assumptions=assumptions,
               wall_s=round(time.time() - t0, 1), violations=len(violations))
-    os.makedirs(os.path.join(HERE, 'evidence'), exist_ok=True)
-    json.dump(ev, open(os.path.join(HERE, 'evidence', prop + '.json'), 'w'), indent=1)
+    # evidence/<id>.json is the record of a registered run on /repo; developer runs (--only, VERIF_REPO pointing at a scratch
+    # copy, VERIF_TIMEOUT_CAP) write next to it under out/ so that a partial or mutated run can never be committed as evidence
+    dev = bool(a.only or os.environ.get('VERIF_REPO') or os.environ.get('VERIF_TIMEOUT_CAP'))
+    evdir = os.path.join(HERE, 'out', 'evidence-dev') if dev else os.path.join(HERE, 'evidence')
+    os.makedirs(evdir, exist_ok=True)
+    tmp = os.path.join(evdir, '.%s.json.%d' % (prop, os.getpid()))
+    json.dump(ev, open(tmp, 'w'), indent=1)
+    os.replace(tmp, os.path.join(evdir, prop + '.json'))
 
     for l in vio_lines:
         print(l)
